@@ -49,7 +49,9 @@ Near == << [X0 EXCEPT !.restTypes = {"script"}], [X0 EXCEPT !.important = TRUE],
            [X0 EXCEPT !.white = TRUE], [X0 EXCEPT !.pat = Str("||h.test^*")], [X0 EXCEPT !.third = "on"],
            [X0 EXCEPT !.restTypes = {"script", "image", "media"}], [X0 EXCEPT !.restDom = {OthDom}],
            \* the same permitted record type plus an excluded one; the same pattern in another letter case
-           [X0 EXCEPT !.restDns = {"AAAA"}], [X0 EXCEPT !.pat = Str("||H.test^")] >>
+           [X0 EXCEPT !.restDns = {"AAAA"}], [X0 EXCEPT !.pat = Str("||H.test^")],
+           \* a negated flag modifier
+           [X0 EXCEPT !.mcase = "off"] >>
 X1 == [M0 EXCEPT !.rewrite = RW(Str("1.2.3.4"))]
 BadfilterMain == <<X0, Bf(X0)>> \o Near \o [k \in 1..Len(Near) |-> Bf(Near[k])]
                  \o << M0, Bf(M0), Al(FALSE, FALSE, {}), Bf(Al(FALSE, FALSE, {})), Al(TRUE, FALSE, {}),
